@@ -101,6 +101,15 @@ def run(ck, only=None):
     for i, c in enumerate(extra):
         c.tag = f"K{len(cases) + i + 1}"
     cases = cases + extra
+    # arrays of over-aligned elements (struct_layout.rs has a special case for them): alone, before/after/between small members
+    oa = gen_c.enumerate_records(3, atoms=["char", "int"] + gen_c.OVERALIGNED_ARRAY_ATOMS, rattrs=["plain", "packed", "al16", "pp4"])
+    if ck.tier != "thorough":
+        oa = [c for c in oa if len(c.atoms) <= 2 or (c.atoms[1] in gen_c.OVERALIGNED_ARRAY_ATOMS and c.atoms[0] in ("char", "int") and c.atoms[2] in ("char", "int"))]
+    oa = [c for c in oa if set(c.atoms) & set(gen_c.OVERALIGNED_ARRAY_ATOMS)]
+    for i, c in enumerate(oa):
+        c.tag = f"K{len(cases) + i + 1}"
+    cases = cases + oa
+    n_fixed = len(oa)
     if ck.tier == "thorough":
         sub = ["char", "int", "llong", "double", "ldouble", "ptr", "arr3c", "nestpk", "nestal", "anons", "bfA", "bfB", "flex"]
         w3 = gen_c.enumerate_records(3, atoms=sub, rattrs=["plain", "packed", "al16", "pp2", "pp4"])
@@ -112,7 +121,7 @@ def run(ck, only=None):
         # quick: all 1-member records, and the 2-member records of a VERIF_SEED-rotated third of the first-member atoms
         keys = [a.key for a in gen_c.ATOMS]
         pick = {k for i, k in enumerate(keys) if (i + ck.seed) % 6 == 0}
-        cases = [c for c in cases if len(c.atoms) == 1 or c.atoms[0] in pick]
+        cases = [c for c in cases if len(c.atoms) == 1 or c.atoms[0] in pick or (set(c.atoms) & set(gen_c.OVERALIGNED_ARRAY_ATOMS))]
         ck.cap("quick tier: 2-member records whose first member is in a rotated sixth of the atom alphabet; thorough: all, plus 3-member "
                "records over a 13-atom sub-alphabet")
     if only:
